@@ -15,6 +15,7 @@ package main
 
 import (
 	"bytes"
+	"context"
 	"crypto/sha1"
 	"encoding/binary"
 	"encoding/hex"
@@ -26,6 +27,8 @@ import (
 	"io/ioutil"
 	"math"
 	"math/rand"
+	"net/http"
+	"net/http/httptest"
 	"os"
 	"os/exec"
 	"path/filepath"
@@ -36,6 +39,7 @@ import (
 	"time"
 
 	"github.com/youzan/ZanRedisDB/pkg/types"
+	"github.com/youzan/ZanRedisDB/raft"
 	"github.com/youzan/ZanRedisDB/raft/raftpb"
 	"github.com/youzan/ZanRedisDB/transport/rafthttp"
 	"zrverif/graph"
@@ -75,6 +79,8 @@ type cdDrv struct {
 	nchunked, nresend                           int
 	nconn, nreconnect, nstreamMsg, nstreamHB    int
 	nstreamDropped, nstreamAborted              int
+	nconnCut, nscenario, ndeliver               int
+	npost, nsnappost                            int
 	inproc                                      bool
 	nnotrun                                     int
 	hugeLeft                                    int    // corruptions with a huge length still to be run in a child process
@@ -1186,10 +1192,12 @@ func (c *cdConn) chunk(i int) []byte {
 
 // one connection of a stream-level scenario: what was handed to the writer and was written
 type cdConnLog struct {
-	bad  bool // a hand-over timed out: the attribution is no longer certain, nothing is logged
-	conn *cdConn
-	seen int              // flushed pieces already attributed
-	msgs []raftpb.Message // per attributed piece: the message (a link heartbeat for the writer's own ones)
+	cut       int              // with a real reader: the connection ended after this many bytes
+	delivered []raftpb.Message // with a real reader: what it handed to raft from this connection
+	bad       bool             // a hand-over timed out: the attribution is no longer certain, nothing is logged
+	conn      *cdConn
+	seen      int              // flushed pieces already attributed
+	msgs      []raftpb.Message // per attributed piece: the message (a link heartbeat for the writer's own ones)
 }
 
 // streamScenario drives a real streamWriter: attach a connection, replicate (continuation
@@ -1200,8 +1208,13 @@ type cdConnLog struct {
 // events.  One message is handed over at a time and the writer's flush awaited, so that the
 // attribution of flushed pieces to messages does not depend on timing; the writer's own
 // link heartbeats are separate flushed pieces and are logged as what they are.
-func (d *cdDrv) streamScenario(v2 bool, awaitHB bool) {
+func (d *cdDrv) streamScenario(v2 bool, awaitHB bool, withReader bool) {
 	const sender, receiver = 1, 2
+	// the generic stream also carries snapshot-sized payloads now and then
+	msgBig := 0.0
+	if d.rng.Intn(3) == 0 {
+		msgBig = 0.3
+	}
 	sw := rafthttp.VerifStartStreamWriter(types.ID(receiver))
 	defer sw.Stop()
 	hb := rafthttp.VerifLinkHeartbeatMessage()
@@ -1217,6 +1230,73 @@ func (d *cdDrv) streamScenario(v2 bool, awaitHB bool) {
 	var cur *cdConnLog
 	var curc chan<- raftpb.Message
 	aborted := false
+	// the reading end: a real streamReader whose dials are answered by the harness with the
+	// bytes of one connection each, and a raft that records the Process calls
+	var rec *cdRecRaft
+	var rt *cdRT
+	var pending chan io.ReadCloser
+	if withReader {
+		rec = &cdRecRaft{sig: make(chan struct{}, 1<<16)}
+		rt = &cdRT{dialc: make(chan chan io.ReadCloser)}
+		rd, err := rafthttp.VerifStartStreamReader(types.ID(receiver), types.ID(sender), v2, rt, rec)
+		if err != nil {
+			return
+		}
+		defer func() {
+			if pending != nil {
+				pending <- nil
+			}
+			rd.Stop()
+		}()
+	}
+	waitDial := func() bool {
+		if pending != nil {
+			return true
+		}
+		select {
+		case pending = <-rt.dialc:
+			return true
+		case <-time.After(30 * time.Second):
+			return false
+		}
+	}
+	// the connection just written ends after a seeded number of bytes (often inside a frame);
+	// the reader gets exactly these bytes, then the end of the stream, and dials again
+	readConn := func() {
+		c := cur.conn
+		c.mu.Lock()
+		raw := append([]byte(nil), c.buf[:c.flushed]...)
+		var ends []int
+		for i := 0; i < cur.seen && i < len(c.chunks); i++ {
+			ends = append(ends, c.chunks[i][1])
+		}
+		c.mu.Unlock()
+		k := len(raw)
+		switch d.rng.Intn(5) {
+		case 0: // clean close behind the last frame
+		case 1: // at a frame boundary
+			if len(ends) > 0 {
+				k = ends[d.rng.Intn(len(ends))]
+			}
+		default: // anywhere
+			k = d.rng.Intn(len(raw) + 1)
+		}
+		cur.cut = k
+		if !waitDial() {
+			cur.bad, aborted = true, true
+			return
+		}
+		before := rec.count()
+		pending <- ioutil.NopCloser(&cdChunk{bytes.NewReader(raw[:k]), []int{0, 1, 7, 4096}[d.rng.Intn(4)]})
+		pending = nil
+		// the next dial tells that the reader is done with this connection
+		if !waitDial() {
+			cur.bad, aborted = true, true
+			return
+		}
+		cur.delivered = rec.since(before)
+		d.nconnCut++
+	}
 	// attribute the flushed pieces that have appeared on the current connection; returns
 	// true when a piece that is not a link heartbeat was attributed to m
 	collect := func(m *raftpb.Message) bool {
@@ -1336,12 +1416,37 @@ func (d *cdDrv) streamScenario(v2 bool, awaitHB bool) {
 				send(m)
 				index[g] += uint64(ne)
 			} else {
-				send(d.rndMessage(0))
+				m := d.rndMessage(msgBig)
+				if withReader && rafthttp.VerifIsLinkHeartbeatMessage(&m) {
+					m.From = 1 // the reader drops link heartbeats; keep them out of this stage
+				}
+				send(m)
 			}
+		}
+		if withReader && !aborted {
+			collect(nil)
+			readConn()
 		}
 	}
 	collect(nil)
 	// the writer is stopped by the deferred Stop; now replay every connection as a segment
+	if withReader {
+		// a heartbeat of the writer's own timer would be dropped by the reader: such a (rare)
+		// scenario is not logged
+		for _, l := range logs {
+			for i := range l.msgs {
+				if rafthttp.VerifIsLinkHeartbeatMessage(&l.msgs[i]) {
+					l.bad = true
+				}
+			}
+			if l.bad {
+				d.nstreamAborted++
+				return
+			}
+		}
+		d.tw.Emit(trace.M{"ev": "scenario", "stage": "conn"})
+		d.nscenario++
+	}
 	for _, l := range logs {
 		if l.bad {
 			d.nstreamAborted++
@@ -1353,7 +1458,11 @@ func (d *cdDrv) streamScenario(v2 bool, awaitHB bool) {
 		if v2 {
 			stream = "v2"
 		}
-		d.tw.Emit(trace.M{"ev": "reset", "stream": stream, "local": receiver, "remote": sender, "buffered": true, "stage": "stream"})
+		stage := "stream"
+		if withReader {
+			stage = "conn"
+		}
+		d.tw.Emit(trace.M{"ev": "reset", "stream": stream, "local": receiver, "remote": sender, "buffered": true, "stage": stage})
 		d.nseg++
 		for i := range l.msgs {
 			b := l.conn.chunk(i)
@@ -1388,10 +1497,326 @@ func (d *cdDrv) streamScenario(v2 bool, awaitHB bool) {
 			d.bytesTotal += int64(len(b))
 			d.tw.Emit(trace.M{"ev": "enc", "m": cdMsgRec(&m, !v2), "dig": dig, "kind": kind, "nbytes": len(b), "err": ""})
 		}
+		if withReader {
+			// what the real reader handed to raft from this connection, then the end it saw
+			d.tw.Emit(trace.M{"ev": "cut", "k": l.cut})
+			for i := range l.delivered {
+				m := l.delivered[i]
+				d.ndec++
+				d.tw.Emit(trace.M{"ev": "dec", "m": cdMsgRec(&m, !v2), "dig": cdDigest(&m), "err": "", "errclass": "none"})
+			}
+			var z raftpb.Message
+			d.tw.Emit(trace.M{"ev": "dec", "m": cdMsgRec(&z, !v2), "dig": "", "err": "reader dialled again", "errclass": "closed"})
+			continue
+		}
 		s.dec = cdNewDecoder(v2, true, s.rd, receiver, sender)
 		for d.decode(s) {
 		}
 		d.late(s)
+	}
+	if withReader {
+		for i, m := range rec.since(0) {
+			d.ndeliver++
+			d.tw.Emit(trace.M{"ev": "deliver", "seq": i + 1, "dig": cdDigest(&m)})
+		}
+	}
+}
+
+// cdRecRaft records what a reader / handler hands to raft
+type cdRecRaft struct {
+	mu    sync.Mutex
+	msgs  []raftpb.Message
+	fails int
+	sig   chan struct{}
+}
+
+func (r *cdRecRaft) Process(ctx context.Context, m raftpb.Message) error {
+	r.mu.Lock()
+	r.msgs = append(r.msgs, m)
+	r.mu.Unlock()
+	select {
+	case r.sig <- struct{}{}:
+	default:
+	}
+	return nil
+}
+func (r *cdRecRaft) IsPeerRemoved(id uint64) bool { return false }
+func (r *cdRecRaft) ReportUnreachable(id uint64, group raftpb.Group) {
+	r.mu.Lock()
+	r.fails++
+	r.mu.Unlock()
+	select {
+	case r.sig <- struct{}{}:
+	default:
+	}
+}
+func (r *cdRecRaft) ReportSnapshot(id uint64, group raftpb.Group, status raft.SnapshotStatus) {}
+func (r *cdRecRaft) count() int {
+	r.mu.Lock()
+	defer r.mu.Unlock()
+	return len(r.msgs)
+}
+func (r *cdRecRaft) since(n int) []raftpb.Message {
+	r.mu.Lock()
+	defer r.mu.Unlock()
+	return append([]raftpb.Message(nil), r.msgs[n:]...)
+}
+
+// cdRT answers the dials of a real streamReader: every RoundTrip asks the harness for the
+// body of the next connection
+type cdRT struct{ dialc chan chan io.ReadCloser }
+
+func (t *cdRT) RoundTrip(req *http.Request) (*http.Response, error) {
+	rc := make(chan io.ReadCloser, 1)
+	select {
+	case t.dialc <- rc:
+	case <-req.Context().Done():
+		return nil, req.Context().Err()
+	}
+	select {
+	case body := <-rc:
+		if body == nil {
+			return nil, fmt.Errorf("no more connections")
+		}
+		h := http.Header{}
+		h.Set("X-Server-Version", rafthttp.VerifServerVersion())
+		return &http.Response{StatusCode: http.StatusOK, Header: h, Body: body, Request: req}, nil
+	case <-req.Context().Done():
+		return nil, req.Context().Err()
+	}
+}
+
+// ------------------------------------------------------------------ (f) the POST paths: pipeline and snapshot
+
+type cdSaver struct {
+	mu   sync.Mutex
+	last string
+}
+
+func (s *cdSaver) SaveDBFrom(r io.Reader, m raftpb.Message) (int64, error) {
+	b, err := ioutil.ReadAll(r)
+	s.mu.Lock()
+	s.last = cdCRC(b)
+	s.mu.Unlock()
+	return int64(len(b)), err
+}
+
+// a request body that ends early the way net/http reports a connection cut inside the body
+type cdShortBody struct {
+	r io.Reader
+}
+
+func (b *cdShortBody) Read(p []byte) (int, error) {
+	n, err := b.r.Read(p)
+	if err == io.EOF {
+		err = io.ErrUnexpectedEOF
+	}
+	return n, err
+}
+func (b *cdShortBody) Close() error { return nil }
+
+func cdPostReq(path string, body io.ReadCloser) *http.Request {
+	req := httptest.NewRequest("POST", "http://127.0.0.1:1"+path, body)
+	req.Header.Set("X-Server-From", "1")
+	req.Header.Set("X-Server-Version", rafthttp.VerifServerVersion())
+	req.Header.Set("X-Min-Cluster-Version", rafthttp.VerifServerVersion())
+	req.Header.Set("X-Etcd-Cluster-ID", "1")
+	return req
+}
+
+// postStage: every POST is one self-contained frame with fresh state: one segment each.
+//   - messages of all types through a REAL pipeline (pbutil.MustMarshal posted by
+//     pipeline.post) to the REAL pipelineHandler behind an httptest server
+//   - handler level: the same body cut at seeded offsets (the body reader then fails the way
+//     net/http does) - nothing may reach raft
+//   - nsnap snapshot posts: createSnapBody (messageEncoder + database bytes) to the REAL
+//     snapshotHandler (messageDecoder + SaveDBFrom), and cuts of that body
+func (d *cdDrv) postStage(n, nsnap int) {
+	recv := &cdRecRaft{sig: make(chan struct{}, 1<<16)}
+	sendr := &cdRecRaft{sig: make(chan struct{}, 1<<16)}
+	saver := &cdSaver{}
+	ph := rafthttp.VerifNewPipelineHandler(recv)
+	sh := rafthttp.VerifNewSnapshotHandler(recv, saver)
+	mux := http.NewServeMux()
+	mux.Handle(rafthttp.RaftPrefix, ph)
+	mux.Handle(rafthttp.RaftSnapshotPrefix, sh)
+	srv := httptest.NewServer(mux)
+	defer srv.Close()
+	rt := &http.Transport{}
+	defer rt.CloseIdleConnections()
+	pl, err := rafthttp.VerifStartPipeline(1, 2, srv.URL, rt, sendr)
+	if err != nil {
+		return
+	}
+	defer pl.Stop()
+	reset := func(stage string) {
+		d.tw.Emit(trace.M{"ev": "reset", "stream": "msg", "local": 2, "remote": 1, "buffered": false, "stage": stage})
+		d.nseg++
+	}
+	encEv := func(m *raftpb.Message, rest string, nbytes int) string {
+		rec := cdMsgRec(m, true)
+		rec["rest"] = rec["rest"].(string) + rest
+		b, _ := json.Marshal(rec)
+		h := sha1.Sum(b)
+		dig := hex.EncodeToString(h[:8])
+		d.nenc++
+		d.nfull++
+		d.tw.Emit(trace.M{"ev": "enc", "m": rec, "dig": dig, "kind": "full", "nbytes": nbytes, "err": ""})
+		return dig
+	}
+	decEv := func(m *raftpb.Message, rest string) {
+		rec := cdMsgRec(m, true)
+		rec["rest"] = rec["rest"].(string) + rest
+		b, _ := json.Marshal(rec)
+		h := sha1.Sum(b)
+		d.ndec++
+		d.tw.Emit(trace.M{"ev": "dec", "m": rec, "dig": hex.EncodeToString(h[:8]), "err": "", "errclass": "none"})
+	}
+	errEv := func(text string) {
+		var z raftpb.Message
+		d.ndec++
+		d.tw.Emit(trace.M{"ev": "dec", "m": cdMsgRec(&z, true), "dig": "", "err": text, "errclass": "other"})
+	}
+	waitOne := func(r *cdRecRaft, before int) bool {
+		deadline := time.After(30 * time.Second)
+		for r.count() == before {
+			select {
+			case <-r.sig:
+			case <-deadline:
+				return false
+			}
+		}
+		return true
+	}
+	// cut bodies through the handler itself (synchronous, so nothing depends on timing)
+	cuts := func(h http.Handler, path string, body []byte, dig string, ncut int) {
+		ks := map[int]bool{1: true, len(body) - 1: true, 8: true, 9: true}
+		for i := 0; i < ncut; i++ {
+			ks[1+d.rng.Intn(len(body)-1)] = true
+		}
+		order := []int{}
+		for k := range ks {
+			if k > 0 && k < len(body) {
+				order = append(order, k)
+			}
+		}
+		sort.Ints(order)
+		for _, k := range order {
+			before := recv.count()
+			w := httptest.NewRecorder()
+			func() {
+				defer func() {
+					if r := recover(); r != nil {
+						d.panicEv("handler", r)
+					}
+				}()
+				h.ServeHTTP(w, cdPostReq(path, &cdShortBody{bytes.NewReader(body[:k])}))
+			}()
+			got := []string{}
+			class := "other"
+			if path == rafthttp.RaftSnapshotPrefix && w.Code < 300 {
+				// the handler hands the message to raft from a goroutine
+				waitOne(recv, before)
+			}
+			for _, m := range recv.since(before) {
+				mm := m
+				got = append(got, cdDigest(&mm))
+			}
+			if w.Code < 300 {
+				class = "none"
+			}
+			d.ntrunc++
+			d.truncClasses[class]++
+			d.tw.Emit(trace.M{"ev": "trunc", "k": k, "got": got, "errclass": class, "errtext": fmt.Sprintf("HTTP %d", w.Code)})
+		}
+	}
+	for i := 0; i < n; i++ {
+		var m raftpb.Message
+		switch d.rng.Intn(8) {
+		case 0:
+			m = d.rndMessage(0.5)
+		case 1: // around the handler's read-chunk limit of 64 KB
+			m = d.rndMessage(0)
+			m.Entries = append(m.Entries, raftpb.Entry{Index: 1, Term: 1})
+			d.sizeMessage(&m, 65536-2+d.rng.Intn(5))
+		default:
+			m = d.rndMessage(0.02)
+		}
+		if rafthttp.VerifIsLinkHeartbeatMessage(&m) {
+			m.From = 1
+		}
+		reset("post")
+		encEv(&m, "", m.Size())
+		before, fbefore := recv.count(), sendr.fails
+		pl.Msgc() <- m
+		// either the receiving raft got it or the sending raft was told the peer is unreachable
+		deadline := time.After(30 * time.Second)
+		ok := false
+	wait:
+		for {
+			if recv.count() > before {
+				ok = true
+				break
+			}
+			sendr.mu.Lock()
+			f := sendr.fails
+			sendr.mu.Unlock()
+			if f > fbefore {
+				break
+			}
+			select {
+			case <-recv.sig:
+			case <-sendr.sig:
+			case <-deadline:
+				break wait
+			}
+		}
+		d.npost++
+		if ok {
+			got := recv.since(before)
+			decEv(&got[0], "")
+		} else {
+			errEv("post failed")
+		}
+		if i%6 == 0 {
+			body, _ := m.Marshal()
+			if len(body) > 2 {
+				cuts(ph, rafthttp.RaftPrefix, body, "", 6)
+			}
+		}
+	}
+	for i := 0; i < nsnap; i++ {
+		m := d.rndMessage(0)
+		m.Type = raftpb.MsgSnap
+		m.ToGroup.GroupId = uint64(1000 + i) // the handler accepts one transfer per group at a time
+		m.Snapshot.Metadata.Index, m.Snapshot.Metadata.Term = d.u64(), d.u64()
+		data := d.bytesOf(1 + d.rng.Intn(300000))
+		if i%2 == 1 {
+			data = d.bytesOf(cdBuf + d.rng.Intn(1000))
+		}
+		var frame bytes.Buffer
+		rafthttp.VerifNewMessageEncoder(&frame).Encode(&m)
+		total := frame.Len() + len(data)
+		reset("snapshot")
+		encEv(&m, " body="+cdCRC(data), total)
+		before := recv.count()
+		code, err := rafthttp.VerifPostSnapshot(1, srv.URL, rt, m, data)
+		d.nsnappost++
+		if err == nil && code < 300 && waitOne(recv, before) {
+			got := recv.since(before)
+			saver.mu.Lock()
+			saved := saver.last
+			saver.mu.Unlock()
+			decEv(&got[0], " body="+saved)
+		} else {
+			errEv(fmt.Sprintf("HTTP %d %v", code, err))
+		}
+		// cuts inside the message frame and inside the database bytes (error paths only: the
+		// handler's success path sleeps a second)
+		body := append(append([]byte(nil), frame.Bytes()...), data...)
+		m2 := m
+		m2.ToGroup.GroupId += 500
+		cuts(sh, rafthttp.RaftSnapshotPrefix, body, "", 4)
 	}
 }
 
@@ -1404,6 +1829,9 @@ func codecsim(args []string) error {
 	nrandom := fs.Int("random", 0, "random msgappv2 sequences")
 	nmsg := fs.Int("msg", 0, "random generic-stream sequences")
 	nstream := fs.Int("stream", 0, "stream-level scenarios: a real streamWriter with re-attached connections")
+	nconn := fs.Int("conn", 0, "stream-level scenarios with a real streamReader: connections cut at a seeded byte, re-attach")
+	npost := fs.Int("post", 0, "messages posted through a real pipeline to the real pipelineHandler (+ cut bodies)")
+	nsnap := fs.Int("snap", 0, "snapshot posts (createSnapBody) to the real snapshotHandler (+ cut bodies)")
 	nexplore := fs.Int("explore", 0, "streams explored byte by byte (truncation, corruption)")
 	full := fs.Bool("full", false, "explore every truncation point of streams up to 32 KB and 10x the samples of larger ones")
 	payload := fs.Bool("payload", false, "also corrupt payload bytes")
@@ -1478,10 +1906,19 @@ func codecsim(args []string) error {
 	if *nstream > 0 {
 		rafthttp.SetLogLevel(0)
 	}
+	if *nconn > 0 || *npost > 0 || *nsnap > 0 {
+		rafthttp.SetLogLevel(0)
+	}
+	for i := 0; i < *nconn; i++ {
+		d.streamScenario(i%3 != 2, false, true)
+	}
+	if *npost > 0 || *nsnap > 0 {
+		d.postStage(*npost, *nsnap)
+	}
 	for i := 0; i < *nstream; i++ {
 		// the first msgappv2 scenario (and with many scenarios the first generic one) waits for
 		// a heartbeat of the writer's own timer
-		d.streamScenario(i%3 != 2, i == 0 || (i == 2 && *nstream >= 100))
+		d.streamScenario(i%3 != 2, i == 0 || (i == 2 && *nstream >= 100), false)
 	}
 	for i := 0; i < *nexplore; i++ {
 		v2 := i%3 != 2
@@ -1507,7 +1944,9 @@ func codecsim(args []string) error {
 		"truncations": d.ntrunc, "corruptions": d.ncorrupt, "panics": d.npanic, "decode_errors": d.nerrpath,
 		"skipped_large_alloc":   d.nhuge,
 		"above_limit_cases_run": d.nhugeRun, "child_crashes": d.ncrash, "child_processes": d.nchild,
-		"corruptions_not_run_after_crashes": d.nnotrun, "segments_with_short_reads": d.nchunked, "stream_connections": d.nconn, "stream_reconnects": d.nreconnect,
+		"corruptions_not_run_after_crashes": d.nnotrun, "segments_with_short_reads": d.nchunked, "conn_scenarios": d.nscenario, "conn_connections_cut": d.nconnCut, "conn_delivered": d.ndeliver,
+		"posts": d.npost, "snapshot_posts": d.nsnappost,
+		"stream_connections": d.nconn, "stream_reconnects": d.nreconnect,
 		"stream_messages": d.nstreamMsg, "stream_heartbeats": d.nstreamHB, "stream_not_written": d.nstreamDropped, "stream_connections_not_logged": d.nstreamAborted, "resend_after_big_scenarios": d.nresend} {
 		sum[k] = v
 	}
